@@ -54,7 +54,7 @@ TDel == /\ Is("Del") /\ Ev.o \in DOMAIN objs
 TRt == /\ Is("Rt") /\ Ev.o \in DOMAIN objs
        /\ Promised(objs[Ev.o])
        /\ Ev.res = Extract(<<>>, FromHeader(ToHeader(objs[Ev.o])))
-       /\ Ev.res = objs[Ev.o]
+       /\ Ev.res = objs[Ev.o] /\ Ev.other
        /\ objs' = Append(objs, Ev.res) /\ UNCHANGED nexec /\ Ghosts
 
 TObs == /\ Is("Obs") /\ Ev.o \in DOMAIN objs
